@@ -21,7 +21,7 @@ import (
 	"verifharness/sdfgen"
 )
 
-func main() { Main("C16", check, exprgen.Gen, sdfgen.Gen, stateGen) }
+func main() { Main("C16", check, stateGen, exprgen.Gen, sdfgen.Gen) }
 
 const imp = "From Sdfx Require Import Sdf.C16Corr.\nOpen Scope float_scope."
 
